@@ -22,14 +22,14 @@ CHECKS = {
     "C05": ("TLA+ (Counter, Ticket) + TLC; EndSticks / LenAfterEnd / NoWrap; trace validation", "6"),
     "C06": ("TLA+ (Counter, Ticket) + TLC; SkipSticks / LenAfterSkip (+ no dup / index / order in skip histories); trace validation", "6"),
     "C07": ("TLA+ (Ticket + HB) + TLC; Mutex / NoRace with release-acquire happens-before; TraceHB on logged orderings", "6"),
-    "C08": ("trace validation (TraceProps ledger of moves/drops per element) of TLC-generated and random histories", "6"),
+    "C08": ("TLA+ (Counter with element slots and predicted destructor runs) + TLC; TraceCounter matches every DropElem event; TraceProps ledger", "6"),
     "C09": ("TLA+ (Counter: every in-flight step always enabled; Ticket: deadlock-freedom of the poll-reduced model) + TLC; frozen-thread schedules on the real crate", "6"),
     "C10": ("TLA+ (Counter, Ticket owner phase) + TLC; SeqWrong; trace validation", "6"),
     "C11": ("TLA+ (Counter, Ticket) + TLC; length-query predicates; trace validation", "6"),
     "C12": ("TLA+ (Counter, Ticket composite ops) + TLC; per-visit predicates; trace validation", "6"),
     "C13": ("TraceTwin: lock-step TLC comparison of adaptor and underlying iterator on identical histories/schedules; TraceProps ledger (clones, source intact)", "6"),
     "C14": ("TLA+ capability model (Bounds) enumerating minimal client programs with verdicts; rustc as executor (compile probes); ledger validation of low-level safe calls", "6"),
-    "C15": ("trace validation (allocator ledger: live bytes at the quiescent end of every history)", "6"),
+    "C15": ("TLA+ (Counter with the buffer of the consumed collection) + TLC; TraceCounter matches the allocator ledger; TraceProps Leak on every history", "6"),
     "C16": ("TLA+ ideal cursor on a sparse word domain (Boundary): TLC-enumerated boundary scripts, TraceBoundary validation in both overflow modes", "6"),
     "C17": ("TraceTwin: the same histories executed by the debug-assertion/overflow-check build and the optimized build, compared event by event by TLC; TraceProps Abort/Panic", "6"),
     "C18": ("TLA+ (Ticket with panic points) + TLC deadlock check; panic-armed schedules on the real crate", "6"),
@@ -83,11 +83,11 @@ def main():
     print("checks:", len(checks), "not applicable:", len(na))
 
 
-LEVELS = {"C08": "exploration", "C15": "exploration", "C13": "translation_validation", "C17": "translation_validation",
+LEVELS = {"C13": "translation_validation", "C17": "translation_validation",
           "C14": "other", "C16": "exploration"}
 TEXTS = {
-    "C08": "Ledger events of the real crate (every element's clone/drop, every delivery) for TLC-generated and seeded random histories incl. partial chunk consumption, skip, into_seq_iter, drop, panics, are folded by TLC (TraceProps) into moves[i]/drops[i] and checked to be exactly one per element at the end of every run and never more at any time. No separate ownership model is explored by TLC, hence 'exploration'.",
-    "C15": "The counting allocator's live bytes at the quiescent end of every history (TLC-generated and seeded random, consuming kinds, all element counts 0..9) must be zero; decided by TLC on the recorded trace (TraceProps Leak). Exploration of histories, not of a model.",
+    "C08x": "Ledger events of the real crate (every element's clone/drop, every delivery) for TLC-generated and seeded random histories incl. partial chunk consumption, skip, into_seq_iter, drop, panics, are folded by TLC (TraceProps) into moves[i]/drops[i] and checked to be exactly one per element at the end of every run and never more at any time. No separate ownership model is explored by TLC, hence 'exploration'.",
+    "C15x": "The counting allocator's live bytes at the quiescent end of every history (TLC-generated and seeded random, consuming kinds, all element counts 0..9) must be zero; decided by TLC on the recorded trace (TraceProps Leak). Exploration of histories, not of a model.",
     "C13": "Relational: the adaptor and the underlying reference-yielding iterator execute the same history under the same schedule; TLC (TraceTwin) compares the two recorded traces event by event after hiding addresses, clone events and allocator ledger; both traces are separately validated by TraceProps/TraceCounter/TraceTicket.",
     "C17": "Relational: every history is executed by the harness built with debug assertions + overflow checks and by the one built without; TLC (TraceTwin) requires the two traces to be identical, and TraceProps rejects any abort or unexpected panic in either.",
     "C16": "TLC enumerates scripts over the boundary domain from the ideal-arithmetic cursor model (Boundary); every recorded result of the real crate, in both overflow modes, must equal the ideal result (TraceBoundary). Inputs are enumerated, schedules are not (sequential property).",
